@@ -25,7 +25,7 @@ func c05Alphabet() []dItem {
 		n("-128", -128), n("-129", -129), n("65535", 65535), n("65536", 65536), n("-32768", -32768), n("-32769", -32769),
 		n("0x7fffffff", 0x7fffffff), n("0x80000000", 0x80000000), n("0xffffffff", 0xffffffff), n("0x100000000", 0x100000000),
 		{text: "(1+2)*3", kind: "expr", val: 9},
-		s(`"A"`, "A"), s(`"ab"`, "ab"), s(`""`, ""), s(`"a,b"`, "a,b"), s(`"a;b"`, "a;b"), s(`"a#b c"`, "a#b c"), s(`"it's"`, "it's"),
+		s(`"A"`, "A"), s(`"ab"`, "ab"), s(`""`, ""), s(`"a,b"`, "a,b"), s(`"a;b"`, "a;b"), s(`"a#b c"`, "a#b c"), s(`"it's"`, "it's"), s("\"caf\u00e9\"", "caf\u00e9"), s("\"\u65e5\u672c\"", "\u65e5\u672c"),
 		{text: "back", kind: "label"},
 		{text: "$", kind: "dollar"},
 	}
@@ -153,7 +153,8 @@ func c05Lists(maxLen int, longLens []int) *core.Scenario {
 }
 
 func c05Resb(thorough bool) *core.Scenario {
-	ns := []int{0, 1, 2, 3, 4, 5, 6, 7, 8, 9, 10, 11, 12, 13, 14, 15, 16, 17, 255, 256, 4096, 65536}
+	ns := []int{0, 1, 2, 3, 4, 5, 6, 7, 8, 9, 10, 11, 12, 13, 14, 15, 16, 17, 255, 256, 4096, 65536, -1, -2, -3}
+	huge := map[int]string{-1: "0x100000003", -2: "0x100000000", -3: "4294967299"} // sizes that cannot be reserved: must be diagnosed
 	return &core.Scenario{
 		Name: "resb", Bound: -1,
 		Rule:   "RESB n for the listed n, and RESB addr-$ for every reachable addr after k preceding bytes, x ORG; non-trivial = n>0 bytes reserved",
@@ -172,6 +173,24 @@ func c05Resb(thorough bool) *core.Scenario {
 			pre := ""
 			if form == "const" {
 				n := ns[c.Pick("n", len(ns))]
+				if n < 0 {
+					hs := huge[n]
+					src := org + sentinelLine(0) + "\tRESB " + hs + "\n" + sentinelLine(1)
+					return &core.Case{
+						Key:  strings.TrimSpace(org) + "||RESB " + hs,
+						Feat: feat("dir", "RESB", "form", "huge", "org", fmt.Sprint(origin)),
+						Srcs: []string{src},
+						Judge: func(rs []*core.Result) core.Verdict {
+							v := core.Verdict{Outcome: "diagnosed", Nontrivial: true}
+							if !core.ReportsError(rs[0], nil) {
+								reg, _ := between(rs[0].Out, 0, 1)
+								v.Outcome = "accepted"
+								v.Fails = []core.Fail{{Facet: "bytes", Dev: "unreservable_size_accepted", Detail: fmt.Sprintf("RESB %s assembled without error to %d bytes", hs, len(reg))}}
+							}
+							return v
+						},
+					}
+				}
 				stmt = fmt.Sprintf("\tRESB %d\n", n)
 				want = make([]byte, n)
 			} else {
